@@ -11,7 +11,8 @@ import random
 
 from lib import common, gen, qscen, spec
 
-THEOREMS_TIED = ["C02_kv_scan_complete", "C02_kv_kinds_filter_complete", "C02_kv_authors_filter_complete", "C02_kv_kinds_complete_reachable",
+THEOREMS_TIED = ["C02_kv_scan_complete", "C02_kv_kinds_filter_complete", "C02_kv_authors_filter_complete", "C02_kv_authorkinds_filter_complete",
+                 "C02_kv_ids_filter_complete", "C02_kv_tags_filter_complete", "C02_kv_tags_complete_nosince_reachable", "C02_kv_kinds_complete_reachable",
                  "C02_kv_authors_complete_reachable", "C02_kv_authorkinds_complete_reachable", "C02_kv_executePlan_complete", "C02_kv_no_duplicates", "C02_sql_complete_partial", "C02_sql_no_duplicates"]
 
 
